@@ -219,3 +219,14 @@ where
         })
         .map(|(idx, _)| idx)
 }
+
+/// Verification-only seam: swaps state of the thread local generators of the current thread and
+/// returns the previous one as (repeatable, randomized) pair.
+/// Compiled only with `--cfg reinterpretcat_vrp_verif`; shipped builds are unaffected.
+#[cfg(reinterpretcat_vrp_verif)]
+pub fn verif_swap_rng_state(repeatable: SmallRng, randomized: SmallRng) -> (SmallRng, SmallRng) {
+    (
+        REPEATABLE_RNG.with(|t| std::mem::replace(&mut *t.borrow_mut(), repeatable)),
+        RANDOMIZED_RNG.with(|t| std::mem::replace(&mut *t.borrow_mut(), randomized)),
+    )
+}
